@@ -48,3 +48,13 @@ Theorem C07_segments_partition : forall d o last cuts c1 rest, cuts = c1 :: rest
   Forall (fun c => c <= last) cuts -> seg_rows d o cuts last = main_rows d o c1 (last - c1).
 Proof. exact segments_partition. Qed.
 Print Assumptions C07_segments_partition.
+
+(* WHICH lines open a measure, for every state the importer can reach and every line: the measure index grows by the
+   stage of the line exactly when one of its ordinary cells (no header, no spine operator) holds a token of category
+   BARLINES - whatever the type of the spine the cell stands in - or a token under CORE while no measure is open yet;
+   comment lines and blank lines never change it.  (The tokens are those of C02_tree_holds_the_source_grid.) *)
+From KV Require Import Importer TreeProofs GridTokensProofs MeasureStartProofs.
+Theorem C07_which_lines_open_a_measure : forall bad s row s', state_ok s -> hdr_ok (i_doc s) ->
+  step_row bad s row = IOk s' -> measure_step_spec s row s'.
+Proof. exact step_row_measure_spec. Qed.
+Print Assumptions C07_which_lines_open_a_measure.
